@@ -59,7 +59,13 @@ impl Program {
         // collect all instances of type templates from the symbol table
         let mut data_types = Vec::new();
         let mut codata_types = Vec::new();
-        for (name, (pol, type_args, xtors)) in symbol_table.types {
+        // the instances are kept in a hash map; sort them, so that the order of the declarations
+        // in all later stages does not depend on the hash seed of the process
+        let mut instances: Vec<_> = std::mem::take(&mut symbol_table.types)
+            .into_iter()
+            .collect();
+        instances.sort_by(|(name1, _), (name2, _)| name1.cmp(name2));
+        for (name, (pol, type_args, xtors)) in instances {
             match pol {
                 Polarity::Data => {
                     let ctors = xtors
